@@ -1248,6 +1248,15 @@ tp_threads_create(tp_p tp, const int skip_first) {
 		if (NULL == tpt->tp)
 			continue;
 		tpt->state = TP_THREAD_STATE_STARTING;
+		/* tp_shutdown() may run right now (other thread, or start
+		 * hook of thread created above) and it skips STOP threads:
+		 * publish STARTING before look at shutdown, so that it see
+		 * this thread or we see shutdown. */
+		__atomic_thread_fence(__ATOMIC_SEQ_CST);
+		if (0 != tp->shutdown) {
+			tpt->state = TP_THREAD_STATE_STOP;
+			return (EBUSY);
+		}
 		if (0 == pthread_create_eagain(&tpt->pt_id, NULL,
 		    tp_thread_proc, tpt)) {
 		} else {
